@@ -107,7 +107,7 @@ class Wearable(SchemaBase):
         version_str = reader.readline().rstrip()
         if version_str != WEARABLE_VERSION:
             raise ValueError(f"Bad wearable version {version_str!r}")
-        cls._skip_to_next_populated_line(reader)
+        # The name is the line right after the version, and it may be empty
         name = reader.readline().rstrip()
 
         permissions = InventoryPermissions.from_reader(reader, read_header=True)
